@@ -56,6 +56,14 @@ adapt_uri = Contract(
     descr="every label / secret / issuer text",
 )
 
+otp_type = Contract(
+    "TOTP._check_otp_type", f"{T}::TOTP._check_otp_type",
+    params={"cls": Obj(cls=(T, "TOTP"), is_class=True), "type": Str()},
+    raises_iff={"ValueError": "type != 'totp' and type != 'hotp'", "NotImplementedError": "type == 'hotp'"},
+    ensures=[("only 'totp' is accepted", "result is True and type == 'totp'")],
+    descr="every type string: an unknown otp type is refused with a value error, never answered False",
+)
+
 # ---- htdigest.hash (C01/C16): user, realm and a text password are all encoded with the context encoding --------------------
 DG = "passlib/handlers/digests.py"
 
